@@ -338,5 +338,6 @@ def cases(tier):
           H3(2, 1), H3(2, 2), H3(3, 1), H3c("site"), H3c("nn_ham"), H3c("nn_diss"), H3c("full3"), H3c("full2"), H5(2), H5(3)]
     if tier == "thorough":
         cs += [H1("tempo", 5, 2, True), H1("pt", 5, 2, True), H1("mf", 5, 3), H1("tempo", 2, 1, d=3), H1("pt", 2, 1, d=3),
-               H2("tempo", 3, 1), H2("pt", 3, 1), H2("pt", 3, None), H3(3, 2)]
+               H2("tempo", 3, 1), H2("pt", 3, 1), H2("pt", 3, None), H3(3, 2), H1("mf", 4, 1, True), H1("tempo", 4, None),
+               H1("pt", 4, 1, True), H1("tempo", 2, None, d=3), H1("mf", 2, 1, d=3), H2("tempo", 2, 2), H2("pt", 2, None)]
     return cs
